@@ -71,7 +71,11 @@ RevPath(S) == [m \in 1..Len(S) |-> RevSeg(S[Len(S) + 1 - m])]
 BezPaths == << << << <<0,0>>, <<4,6>>, <<8,0>> >>, << <<8,0>>, <<0,0>> >> >>,                                         \* parabolic lens
                << << <<0,0>>, <<6,0>>, <<6,6>>, <<0,6>> >>, << <<0,6>>, <<0,0>> >> >>,                                 \* D shape
                << << <<0,0>>, <<8,4>>, <<-4,4>>, <<4,0>> >>, << <<4,0>>, <<2,-2>>, <<0,0>> >> >>,                       \* self-crossing cubic + quadratic
-               << << <<2,0>>, <<6,0>> >>, << <<6,0>>, <<8,0>>, <<8,2>> >>, << <<8,2>>, <<8,6>>, <<2,6>>, <<2,0>> >> >> >>   \* line, quadratic, cubic
+               << << <<2,0>>, <<6,0>> >>, << <<6,0>>, <<8,0>>, <<8,2>> >>, << <<8,2>>, <<8,6>>, <<2,6>>, <<2,0>> >> >>,     \* line, quadratic, cubic
+               << << <<0,0>>, <<8,4>>, <<-4,4>>, <<0,0>> >> >>,                                                         \* one segment returning to its start (teardrop)
+               << << <<0,0>>, <<6,0>> >>, << <<6,0>>, <<6,6>> >>, << <<6,6>>, <<10,8>>, <<8,10>>, <<6,6>> >>,            \* square with a loop at one corner
+                  << <<6,6>>, <<0,6>> >>, << <<0,6>>, <<0,0>> >> >>,
+               << << <<0,0>>, <<4,2>>, <<0,0>> >>, << <<0,0>>, <<6,0>> >>, << <<6,0>>, <<2,6>>, <<0,0>> >> >> >>         \* there-and-back quadratic, line, quadratic
 AsSegs(P) == [i \in 1..Len(P) |-> <<P[i], Nx(P, i)>>]
 PolygonAgrees == Area60(AsSegs(poly)) = 30 * Shoelace(poly)
 BezRevNegates == \A b \in 1..Len(BezPaths) : Area60(RevPath(BezPaths[b])) = -Area60(BezPaths[b])
